@@ -32,6 +32,12 @@ type vcgen struct {
 	seenH map[string]bool
 	busy  map[ssa.Value]bool
 	n     int
+	// while a loop back edge is being described: values computed inside the loop belong to the PREVIOUS iteration there and
+	// get names of their own (overN / overL / overC), so that they are never confused with this iteration's values
+	loopHead           *ssa.BasicBlock
+	overN, overL, overC map[ssa.Value]string
+	phiDepth           int
+	phiDone            map[*ssa.Phi]bool
 }
 
 func newVC() *vcgen {
@@ -78,12 +84,29 @@ func intInfo(t types.Type) (isInt, unsigned bool, bits int) {
 	return true, false, 64
 }
 
+// variant: under a back-edge description, v is computed inside the loop (its block is not a strict dominator of the head)
+func (g *vcgen) variant(v ssa.Value) bool {
+	if g.loopHead == nil {
+		return false
+	}
+	ins, ok := v.(ssa.Instruction)
+	if !ok || ins.Block() == nil {
+		return false
+	}
+	b := ins.Block()
+	return !(b != g.loopHead && b.Dominates(g.loopHead))
+}
+
 func (g *vcgen) atom(v ssa.Value) string {
-	if n, ok := g.names[v]; ok {
+	names := g.names
+	if g.variant(v) {
+		names = g.overN
+	}
+	if n, ok := names[v]; ok {
 		return n
 	}
 	n := g.fresh("v")
-	g.names[v] = n
+	names[v] = n
 	if isInt, uns, bits := intInfo(v.Type()); isInt {
 		if uns {
 			g.hyp("0 ≤ " + n)
@@ -193,6 +216,9 @@ func (g *vcgen) lin(v ssa.Value) string {
 		return g.atom(v)
 	case *ssa.Phi:
 		a := g.atom(v)
+		if !g.variant(v) {
+			g.phiEdges(x, a)
+		}
 		// i = phi(init, i + c, …): monotone loop variable
 		var inits []ssa.Value
 		up, down, other := false, false, false
@@ -248,6 +274,67 @@ func (g *vcgen) lin(v ssa.Value) string {
 	return g.atom(v)
 }
 
+// phiEdges: a = phi(e_1 … e_n) is, for some k, the value e_k carried by the k-th incoming edge, and that edge is taken
+// only under its branch condition.  For a back edge everything computed inside the loop refers to the previous
+// iteration (own names).  The result is one disjunctive hypothesis; omega splits it.
+func (g *vcgen) phiEdges(x *ssa.Phi, a string) {
+	if g.phiDepth >= 2 || g.loopHead != nil || g.phiDone[x] {
+		return
+	}
+	if g.phiDone == nil {
+		g.phiDone = map[*ssa.Phi]bool{}
+	}
+	g.phiDone[x] = true
+	if isInt, _, _ := intInfo(x.Type()); !isInt {
+		return
+	}
+	B := x.Block()
+	if len(B.Preds) != len(x.Edges) || len(x.Edges) > 4 {
+		return
+	}
+	g.phiDepth++
+	defer func() { g.phiDepth-- }()
+	var disj []string
+	for k, e := range x.Edges {
+		pred := B.Preds[k]
+		back := B.Dominates(pred)
+		if back {
+			g.loopHead = B
+			g.overN, g.overL, g.overC = map[ssa.Value]string{}, map[ssa.Value]string{}, map[ssa.Value]string{}
+		}
+		d := a + " = " + g.lin(e)
+		if iff, ok := pred.Instrs[len(pred.Instrs)-1].(*ssa.If); ok && len(pred.Succs) == 2 && pred.Succs[0] != pred.Succs[1] {
+			pol := 0
+			if pred.Succs[0] == B {
+				pol = 1
+			} else if pred.Succs[1] == B {
+				pol = -1
+			}
+			cond := iff.Cond
+			if u, ok := cond.(*ssa.UnOp); ok && u.Op == token.NOT {
+				cond = u.X
+				pol = -pol
+			}
+			if bo, ok := cond.(*ssa.BinOp); ok && pol != 0 {
+				if op, ok := cmpLean[bo.Op]; ok {
+					xi, _, _ := intInfo(bo.X.Type())
+					yi, _, _ := intInfo(bo.Y.Type())
+					if xi && yi {
+						h := g.lin(bo.X) + " " + op + " " + g.lin(bo.Y)
+						if pol < 0 {
+							h = "¬(" + h + ")"
+						}
+						d += " ∧ " + h
+					}
+				}
+			}
+		}
+		g.loopHead, g.overN, g.overL, g.overC = nil, nil, nil, nil
+		disj = append(disj, "("+d+")")
+	}
+	g.hyp(strings.Join(disj, " ∨ "))
+}
+
 func arrayLen(t types.Type) (int64, bool) {
 	switch u := t.Underlying().(type) {
 	case *types.Array:
@@ -270,12 +357,16 @@ func (g *vcgen) lenOf(v ssa.Value) string {
 	if c, ok := v.(*ssa.Const); ok && c.Value == nil {
 		return "0"
 	}
-	if n, ok := g.lens[v]; ok {
+	lens := g.lens
+	if g.variant(v) {
+		lens = g.overL
+	}
+	if n, ok := lens[v]; ok {
 		return n
 	}
 	if g.busy[v] {
 		n := g.fresh("l")
-		g.lens[v] = n
+		lens[v] = n
 		g.hyp("0 ≤ " + n)
 		return n
 	}
@@ -309,7 +400,7 @@ func (g *vcgen) lenOf(v ssa.Value) string {
 		return g.lenOf(x.X)
 	}
 	n := g.fresh("l")
-	g.lens[v] = n
+	lens[v] = n
 	g.hyp("0 ≤ " + n)
 	return n
 }
@@ -323,16 +414,49 @@ func (g *vcgen) capOf(v ssa.Value) string {
 			return g.lin(ms.Len)
 		}
 	}
-	if n, ok := g.caps[v]; ok {
+	caps := g.caps
+	if g.variant(v) {
+		caps = g.overC
+	}
+	if n, ok := caps[v]; ok {
 		return n
 	}
 	n := g.fresh("c")
-	g.caps[v] = n
+	caps[v] = n
 	g.hyp(g.lenOf(v) + " ≤ " + n)
 	return n
 }
 
 var cmpLean = map[token.Token]string{token.LSS: "<", token.LEQ: "≤", token.GTR: ">", token.GEQ: "≥", token.EQL: "=", token.NEQ: "≠"}
+
+// earlier: an index / slice operation that was executed before the site (earlier in its block, or in a dominating block)
+// did not panic, so its own in-bounds condition holds here
+func (g *vcgen) earlier(site ssa.Instruction) {
+	b := site.Block()
+	n := 0
+	add := func(e ssa.Instruction) {
+		switch e.(type) {
+		case *ssa.IndexAddr, *ssa.Index, *ssa.Lookup, *ssa.Slice:
+			if n < 12 {
+				if h, ok := g.goalFor(e); ok {
+					g.hyp(h)
+					n++
+				}
+			}
+		}
+	}
+	for _, e := range b.Instrs {
+		if e == site {
+			break
+		}
+		add(e)
+	}
+	for d := b.Idom(); d != nil; d = d.Idom() {
+		for _, e := range d.Instrs {
+			add(e)
+		}
+	}
+}
 
 // guards: dominating branch conditions as hypotheses
 func (g *vcgen) guards(b *ssa.BasicBlock) {
@@ -408,6 +532,7 @@ func vcVariants(ins ssa.Instruction, depth int) (out [][3]interface{}, ok bool) 
 			return nil, false
 		}
 		g.guards(ins.Block())
+		g.earlier(ins)
 		c := ci.Common()
 		args := c.Args
 		for i, p := range f.Params {
@@ -481,6 +606,7 @@ func vcFor(ins ssa.Instruction) (vars, hyps []string, goal string, ok bool) {
 		return nil, nil, "", false
 	}
 	g.guards(ins.Block())
+	g.earlier(ins)
 	sort.Strings(g.hyps)
 	return g.vars, g.hyps, goal, true
 }
